@@ -41,9 +41,13 @@ def has_kind(m, kinds):
     return any(k in kinds for _, k in model.kinds(m))
 
 
+_VAR = [0]
+
+
 def _mode(fmt):
-    import hszinc
-    return hszinc.MODE_ZINC if fmt == 'zinc' else hszinc.MODE_JSON
+    """the mode constant or one of its documented aliases, rotated from case to case"""
+    from .. import rt
+    return rt._mode(fmt, _VAR[0])
 
 
 def check(case):
@@ -58,6 +62,7 @@ def check(case):
         obj, _ = json_ref.write_document(ms, case.get('choices', ()), multi)
         doc = json.dumps(obj)
     shown = dict(case, doc=doc[:1200])
+    _VAR[0] = len(doc)
     g0s = guarded('source-parse-raises', shown, hszinc.parse, doc, mode=_mode(src), single=False)
     want = ms if multi else ms[:1]
     if len(g0s) != len(want):
@@ -148,6 +153,7 @@ def check_raw(case):
     C07's business; but *if* parse returns grids, they can be dumped in both formats without error (what an ill-formed but
     tolerated text denotes is not defined, so nothing is compared).  Returns 'rejected' | 'accepted'."""
     import hszinc
+    _VAR[0] = len(case['raw'])
     try:
         g0s = hszinc.parse(case['raw'], mode=_mode(case['src']), single=False)
     except Exception:  # noqa - a refused text is out of scope here (C09 / C05 decide how it has to be refused)
